@@ -45,6 +45,11 @@ def check(rep, ctx):
                   message=f"`{o['stmt']}` requests {o['size']} bytes: more than the item holds whenever the other operand is larger -- the bytes of "
                           f"the next field, element or message are consumed and discarded", file=o["file"], line=o["line"])
     rep.count(R_OV, 1, instance="scan")
+    R_NA = rep.rule("C03-a-null-arrays", "an array of primitives is decoded from its null marker to None whatever the annotation says (the "
+                    "generator does not carry nullableVersions of primitive arrays into the annotation, finding F11, so the annotation cannot be "
+                    "taken for the definition)", floor=220)
+    R_LD = rep.rule("C03-a-length-domain", "no field reader rejects a length its format carries", floor=1000)
+    from .wire import length_domain_rows
     R_P = rep.rule("C03-plan", "a reader plan can be derived", floor=1600)
     factory_fn = None
     for key, cls, plan in W.classes():
@@ -101,6 +106,18 @@ def check(rep, ctx):
         for item in W.fields(key, cls, plan):
             f, pf, spec = item["f"], item["pf"], item["spec"]
             construct = f"{key}.{f['name']}"
+            if pf is not None and pf.get("r") is not None:
+                rraw = pf["r"]
+                if rraw.get("k") == "array" and (f.get("metadata") or {}).get("kafka_type") and item["kind"] == "regular":
+                    nl = rraw.get("null")
+                    rep.check(R_NA, isinstance(nl, dict) and nl.get("then") == "none", construct=construct, stmt=f"array reader null arm: {nl}",
+                              message=f"the reader of this array of primitives answers the null marker with {nl.get('then') if isinstance(nl, dict) else 'no arm'}: "
+                                      f"a conforming null (DescribeConfigs configuration_keys = null means 'all keys') is not decoded to None",
+                              **W.codec_loc(pf.get("r_codec")))
+                if pf.get("w") is not None:
+                    for ok_, c_, stmt_, msg_, loc_ in length_domain_rows(W, pf, construct):
+                        if "reader" in stmt_:
+                            rep.check(R_LD, ok_, construct=c_, stmt=stmt_, message=msg_, instance=construct + "|" + stmt_[:30], **loc_)
             if pf is None or pf.get("r") is None:
                 rep.check(R_A, False, construct=construct, stmt=fdesc(cls, f), message="the reader plan has no reader for this field",
                           **W.floc(cls, f))
@@ -152,6 +169,16 @@ def check(rep, ctx):
                                       instance=construct, **W.codec_loc({"fn": fn, "line": rdsc.get("_line", 0)}))
                     else:
                         rep.check(R_E, True, construct=fn, stmt=timeflow.show(rdsc["conv"]), instance=construct)
+    R_VD = rep.rule("C03-a-value-domain", "a scalar reader raises for no value its format carries and its Python type represents (guards of the "
+                    "returning paths evaluated at boundary values, infinities and NaNs, the extremes of timedelta and datetime)", floor=15,
+                    necessary_because="a reader that passes its result through a narrower validating type (f64 = finite floats, i64Timedelta = "
+                                      "all but the last day) rejects canonical encodings of +Infinity, NaN, or a 64-bit duration near the maximum")
+    from .wire import scalar_reader_domain_rows
+    for ok_, c_, stmt_, msg_, line_ in scalar_reader_domain_rows(W.bundle["primitives"]):
+        if ok_ is None:
+            rep.limit(f"{c_}: {msg_}")
+            continue
+        rep.check(R_VD, ok_, construct=c_, stmt=stmt_, message=msg_, file="src/kio/serial/readers.py", line=line_)
     W.finish(rep)
     rep.extra.update(classes=len(S.classes), engine_stats=W.bundle.get("stats"))
     rep.trusted_base += ["struct format semantics", "datetime.replace(microsecond=0) zeroes the sub-second part"]
